@@ -281,6 +281,9 @@ func (eng *Engine) report(prop, tier, verifDir string, units []*FuncUnit, report
 			total++
 			n++
 			kinds[o.Kind]++
+			if o.Status == "error" {
+				brokenMsgs = append(brokenMsgs, fmt.Sprintf("solver rejected the VC of %s: %s", o.Name, strings.SplitN(o.Output, "\n", 2)[0]))
+			}
 			if o.OK() {
 				discharged++
 				nOK++
